@@ -10,7 +10,8 @@ CLAIMS = {
             "each return of each helper must carry a certificate that holds for all inputs: g = gcd(_, n) under 1 < g < n, "
             "n // d for a certified d, or a pair whose product equals n as a polynomial identity under the dominating guards "
             "(is_square facts, inferred invariant b2 = a^2 - n, guard equalities). The modulus in the certificate must be the "
-            "modulus of the very key whose test_info is written, and the attaching path must mark that key weak. "
+            "modulus of the very key whose test_info is written, and the attaching path must mark that key weak (entry.result = True in the Check body, and SetTestResult turns a positive entry into test_info.weak on every path, "
+            "including the path that merges into an existing entry). "
             "Divisibility and weak-marking are decided for all inputs and constructor parameters; properness only for the gcd-based sites.",
             "Trusted: gmpy2 gcd/isqrt/is_square semantics, Python integer semantics, ast parser, the engine. "
             "Not decided: properness of Fermat-style pairs (depends on runtime max_steps vs. primality).",
@@ -22,9 +23,11 @@ CLAIMS = {
             "Only definite exceptions are violations; the result must be the constant False. Separately every value drawn from CURVE_FACTORY "
             "must be None-tested before it is dereferenced (binary-field/unknown curves), subscripts into the table must have keys of proven "
             "provenance, the issuer index map must only hold non-empty lists, every window handed to the lattice code is non-empty (window starts bounded by len(a): R-C18-WINDOW), "
-            "and every Check returns its boolean accumulator without a raise in the body.",
-            "Trusted: Python container semantics, the abstract evaluator. Not decided: arithmetic exceptions on degenerate *values* "
-            "(e.g. invert(0, p) for a crafted off-curve point), which need value reasoning.",
+            "and every Check returns its boolean accumulator without a raise in the body. R-C18-INVERT: a raw-coordinate taint (artifact points handed to EcCurve without "
+            "validation, propagated through the class by a worklist; `% self.mod` makes a value canonical again) finds the modular inversions that unreduced coordinates can reach, "
+            "and each must be dominated by a test of its operand modulo the prime (exposed the Add/Double ZeroDivisionError repaired by fix 388cc4e). R-C18-ALIGN: batched search results "
+            "are indexed by the position in the very list that was searched (no IndexError from lists of different length).",
+            "Trusted: Python container semantics, the abstract evaluator, gmpy2.invert raises exactly when the operand is 0 modulo the prime. Not decided: other arithmetic exceptions on degenerate values.",
             "DESIGN.md section 3 C18"),
     "C03": ("other", "abstract evaluation on the empty batch + symbolic structural induction over tree levels (polynomial step identities) + predicate-region equivalence",
             "Decides: CheckGCD/CheckGCDN1/BatchGCD on the empty batch (no definite exception, empty/False result); the product tree is built over "
@@ -32,7 +35,7 @@ CLAIMS = {
             "T_parent = T_L*P_R + T_R*P_L and P_parent = P_L*P_R as polynomial identities with children paired (2k, 2k+1), the unpaired node carried "
             "on odd levels, base T = 1, root returned; the remainder tree's child i reads parent i // 2 and reduces only modulo its own node value; "
             "leaf gcds zipped position-wise; verdict predicates equal `gcd != 1` and `gcd >= bound` on all regions, default bound 2^128; "
-            "the recorded factor is the tested gcd. Together with the lemma T = sum(P/v) == P/v (mod v) this is the exactness argument for every batch shape.",
+            "the recorded factor is the tested gcd; a shortcut return of all ones is exact only with fewer than two distinct moduli and no extra product. Together with the lemma T = sum(P/v) == P/v (mod v) this is the exactness argument for every batch shape.",
             "Trusted: Python slice/zip semantics, gmpy2.gcd, the congruence lemma. It is an induction over tree levels read from the code, not a run on any batch.",
             "DESIGN.md section 3 C03"),
     "C04": ("other", "symbolic loop-shape proof (inferred invariant, step, order, trip count), polynomial identity for the guess, symbolic constant folding, premature-exit lint over candidate loops",
@@ -40,8 +43,9 @@ CLAIMS = {
             "range(max_steps), bound flowing unmodified from the constructor) - i.e. the 'exactly when (p+q)/2 - ceil(sqrt n) < bound' clause; "
             "the guess isqrt(n + (D/2)^2) + D/2 equals q exactly for n = p(p+D) (polynomial identity); the difference table contains the six "
             "documented values for symbolic L = bitlen // 2 and the gate is exactly L < 384; the three msb variants for every listed unseeded output; "
-            "and no candidate-search loop in the ten search functions returns its failure value or breaks without success outside four documented cut-offs "
-            "(this rule exposed the FactorWithGuess defect, repaired by fix 73b1dbc).",
+            "no candidate-search loop of the five close-prime search functions returns its failure value or breaks without success "
+            "(this rule exposed the FactorWithGuess defect, repaired by fix 73b1dbc); and FactorWithGuess is Lehman's construction: convergents u/v of p0/(n // p0), one Fermat step on 4uvn "
+            "with the square test, gcd release (R-C04-LEHMAN).",
             "Not decided: the equal-high-and-low-bits region (r, s) and the prime-gap tolerance of guesses (runtime quantities); Lehman's completeness argument is trusted number theory.",
             "DESIGN.md section 3 C04"),
     "C20": ("proof", "bit-width abstract interpretation over symbolic path terms with residue splitting of n (n = c*q + r), entropy-reachability and effect analysis",
@@ -61,7 +65,10 @@ CLAIMS = {
             "keyed by literal); table shapes agree with their consumers; each of the nine InsufficientDataError guards equals the documented minimum on all regions; "
             "the cusum extrema are provably on the right side of S_0 = 0 (exposed the defect repaired by fix 0d3e4df); and the *term shape* of the statistics of ten tests "
             "(Frequency, Runs, BlockFrequency, ChiSquare, template mean/variance, Universal correction, Serial, ApproximateEntropy, both cusum series incl. their summation "
-            "bounds, random-excursion statistics) equals the SP 800-22 formula as a rational function of its function atoms (R-C12-FORMULA, pcstatic/ratfun.py).",
+            "bounds, random-excursion statistics) equals the SP 800-22 formula as a rational function of its function atoms (R-C12-FORMULA, pcstatic/ratfun.py). "
+            "R-C12-PURE: no function of the five modules behind the tests writes state that outlives the call (globals, module-level containers directly or through an alias, mutable defaults); "
+            "a module-level memo is accepted only when its key contains every input of the stored value. R-C12-LADDER: LargeBinaryMatrixRank tests every matrix 64*2^i with size^2 <= n "
+            "(loop condition in canonical form), agrees with its data-size guard, and hands the size x size prefix to the rank computation.",
             "Not decided: the floating-point *values* of the p-values, the [0,1] range and the invariance clauses (runtime values). Shape rules (R-C12-CONSIST) compare normalised statements and are the most refactoring-sensitive part.",
             "DESIGN.md section 3 C12"),
     "C09": ("proof", "symbolic evaluation to polynomial identities modulo n (congruence stripping of `% n`, inverse atom), piecewise region equivalence, converter writer/reader agreement",
@@ -75,8 +82,11 @@ CLAIMS = {
             "All 16 formula blocks of EcCurve (Add, Double, Negate, Subtract, DoubleJacobian x2, AddJacobian, JacobianToAffine, BatchJacobianToX/Affine, BatchAddList, "
             "BatchDouble, BatchAdd, BatchAddX, BatchAddSubtractX sum and difference) are proved equal to the chord-and-tangent law as exact identities of rational "
             "functions in the coordinates, with shared inverses traced back to the denominators stored in the request loop; special-case dispatch (infinity, equal, "
-            "opposite, 2-torsion, missing shared inverse) is checked path by path; the nine curve literals are prime-field, non-singular, G on curve, n prime, n*G = inf, Hasse-consistent.",
-            "Trusted: gmpy2.invert contract, congruence of `% mod`. Not decided: the scalar-multiplication loops, the comb in BatchMultiplyG, Montgomery's array invariants in BatchInverse (its final self-check is runtime).",
+            "opposite, 2-torsion, missing shared inverse) is checked path by path; the nine curve literals are prime-field, non-singular, G on curve, n prime, n*G = inf, Hasse-consistent. "
+            "R-C11-SCALAR: Multiply and MultiplyAffine are proved by induction on their stated invariant res + n*p = N*P in a group-coefficient domain (entry for both signs of n, both parities "
+            "of the counter via n = 2*(n//2) + n%2, exit at counter 0, shortcut returns). R-C11-COMB: the generator comb reduces every scalar to [0, n) before bit extraction (range proof incl. "
+            "conditional expressions), multiplier = (s >> i) & mask with cached multiples of G, teeth and offsets tile the bits of the order, Horner accumulation double-then-add.",
+            "Trusted: gmpy2.invert contract, congruence of `% mod`, the bit-decomposition lemma of the comb. Not decided: Montgomery's array invariants in BatchInverse (its final self-check is runtime).",
             "DESIGN.md section 3 C11"),
     "C02": ("other", "dominance of verifying comparisons over release sites on identical symbolic values (symbolic path walk), index-codec agreement, untrusted-source sanitisation (taint) analysis",
             "Every non-None store into BatchDL's result is dominated by Multiply(g, dl) == points[i] on x and y (resp. negated y for -dl); relation strings of "
@@ -92,16 +102,19 @@ CLAIMS = {
             "t <= 2T - 1; reach (G-1)*t + T - 1 >= n - 1 with the extracted G = 2 + n // t by the floor lemma (a residual that is not provably >= 0 is reported); "
             "PointTable covers [0, N) (m*r >= N by the ceiling lemma, index i*m + j, both sequences of the right length); PointSequence yields 0..k-1 multiples; "
             "the cached table is rebuilt only when a larger one is requested and always matches its stored size; multiplier families 2^(8j) and repeated 32-bit words are complete, "
-            "bound 2^32; only identical points are skipped and the early return only fires without pairs.",
+            "bound 2^32; only identical points are skipped and the early return only fires without pairs; the comparison list of the difference search stays aligned with the batch "
+            "(one append per outer iteration) and both relation stores name the right pair (rows shared with C02).",
             "Trusted: the two floor-division lemmas, int(math.sqrt) for these magnitudes, group-law correctness of the batched additions (C11). Assumes T >= 1.",
             "DESIGN.md section 3 C10"),
     "C19": ("proof", "declared loop invariants checked by symbolic execution of one iteration + polynomial step identities and exponent inequalities; release-guard dominance for the root finders",
             "Inverse2exp: invariant a*n == 1 (mod 2^t): base n mod 4 with t = 2 for odd n, step identity a'n - 1 = -(an - 1)^2, exponent t' = min(k, .) <= 2t, reduction modulo 2^t', "
             "loop while t < k, None exactly for even n. InverseSqrt2exp: invariant a^2 n == 1 (mod 2^t): base (1, 3) under n == 1 (mod 8), identity 4(a'^2 n - 1) = e^2 (e - 3), "
             "t' <= 2t - 2, None for k >= 3 exactly when n % 8 != 1. Sqrt2exp returns {r, M - r, H - r, H + r} with r the inverse of the inverse square root, [] iff none exists, "
-            "exhaustive filter for k < 3. DivmodRounded: a = x*b + y by the divmod axiom with offset (b+1)//2. The three small-root finders release a root only under "
-            "the divisibility test on f(root) of the same root. ContinuedFraction is the Euclid recurrence and appends (q, r, t) after the update.",
-            "Not decided (runtime values): the rational solver (echelon_form's row moves), completeness of the small-root finders, Sieve, PseudoAverage, Bias, UniformSumCdf, CombinedPValue numerics; product trees are under C03.",
+            "exhaustive filter for k < 3. DivmodRounded: a = x*b + y by the divmod axiom and |y| <= b/2 for every residue of b modulo 2 (exposed the defect repaired by fix 16e0547). The three small-root finders release a root only under "
+            "the divisibility test on f(root) of the same root. ContinuedFraction is the Euclid recurrence and appends (q, r, t) after the update. "
+            "R-C19-BIAS: lattice_suite.Bias is UniformSumCdf(#terms, 2*T/n) with T the sum over sample x transforms of min(r, n - r), r = (a*s + b) % n, and the count handed to the "
+            "Irwin-Hall CDF equals the number of additions into T (closed form of the accumulation: product of the trip counts of the enclosing loops).",
+            "Not decided (runtime values): the rational solver (echelon_form's row moves), completeness of the small-root finders, Sieve, PseudoAverage, UniformSumCdf, CombinedPValue numerics; product trees are under C03.",
             "DESIGN.md section 3 C19"),
     "C06": ("other", "predicate-region equivalence of extracted path conditions (integer comparisons + opaque boolean atoms), constant folding of tables, for-all loop shape analysis, string-grammar writer/reader agreement",
             "For CheckSizes, CheckExponents, CheckWeakCurve, CheckValidECKey, EcCurve.IsValidPublicKey, OnCurve, CheckROCA, CheckROCAVariant, both ROCA detectors and "
@@ -117,45 +130,52 @@ CLAIMS = {
             "else PASSED iff the combined repeat level is below it, else UNDECIDED - checked on all 13 weak orderings; the new value is appended before combining, the repeat level "
             "is combined over the same count, `undecided` counts exactly the UNDECIDED names, finished <=> undecided == 0 and runs >= min_repetitions, InsufficientDataError "
             "finishes without a state; TestSource repeats with fresh bits while some test is unfinished and both entry points return any(Failed) over the complete registry "
-            "(NIST + extended + lattice, every public test function registered); CombinedPValue has the four-case Fisher shape.",
+            "(NIST + extended + lattice, every public test function registered); CombinedPValue has the four-case Fisher shape. One structural necessary condition of the "
+            "second sentence: the large-matrix-rank test examines every power-of-two matrix that fits, including the exactly fitting one the documentation names as the detector (R-C13-RANK, shared with C12).",
             "Not decided: that good generators pass and the documented weak ones fail (statistics on runtime values).",
             "DESIGN.md section 3 C13"),
-    "C14": ("other", "piecewise power-of-two exponent extraction + small linear-arithmetic prover; region equivalence of the domain guards; writer/reader agreement across the Python/C++ boundary (regex/brace scan)",
+    "C14": ("other", "refinement typing of the pure-Python Berlekamp-Massey loop in an alignment domain (ghost polynomials, symbolic path walk); piecewise power-of-two exponent extraction + small linear-arithmetic prover; region equivalence of the domain guards; writer/reader agreement across the Python/C++ boundary (regex/brace scan)",
             "Decides the second sentence of the property completely: LfsrCount equals 2^min(2m-1, 2n-2m) for 1 <= m <= n, 1 for m = 0 and 0 outside 0 <= m <= n, n >= 1; "
             "LfsrLogProbability equals that exponent minus n and raises outside the domain (piece by piece, with the split m <= n // 2 justified by the floor lemma); "
             "the reference distribution is cross-validated in the checker by a textbook Berlekamp-Massey over all sequences up to length 11 (14 thorough). "
             "And one interface clause that is a necessary condition of the first sentence: byte order, bit-length unit, range checks and exported name agree between "
-            "LinearComplexity (Python), LfsrLength/LfsrLengthStr (C++), the pybind stub and setup.py.",
-            "NOT decided: that the native (CLMUL / word-shift) and pure-Python Berlekamp-Massey routines return the shortest-LFSR length and agree - equality of three numerical algorithms over 64-bit word arithmetic; a Python-ast engine does not parse C++ semantics.",
+            "LinearComplexity (Python), LfsrLength/LfsrLengthStr (C++), the pybind stub and setup.py. "
+            "R-C14-BM decides the pure-Python part of the first sentence: with sc = (s*C) >> (n - m) and sb = (s*B) >> (nb + 1) every loop path of LinearComplexityNative is Massey's update "
+            "(discrepancy = coefficient n of s*C; C += x^(n-nb) B; (B, nb, L) <- (C, n, n+1-L) iff 2L <= n), from C = B = 1, L = 0 over range(length), returning L.",
+            "NOT decided: that the two C++ variants (CLMUL / word-shift) return the shortest-LFSR length and agree with the Python routine - a Python-ast engine does not parse C++ semantics. Trusted: Massey's theorem.",
             "DESIGN.md section 3 C14 and section 4"),
     "C17": ("other", "effect (who-may-write) analysis over the whole package + loop-carried dependence analysis through loop-head symbols + cache descriptor/content agreement",
             "Decides independence of state, the structural part of the property: no function reachable from a Check writes instance or module-level state outside constructors, "
             "except seven frozen entries (three EcCurve caches, a per-key Generator object) and the registry singletons; in the 17 checks that judge artifacts individually no "
             "variable other than the boolean accumulator is read in an iteration before it is reassigned (so nothing flows from one artifact to the next); the cached baby-step table "
             "always matches its stored size, is rebuilt only when a larger one is requested, and the multiples memo maps k to Multiply(g, k); BatchGCD maps results by value; "
-            "per-curve partitions are disjoint filters mapped back by their own index.",
+            "per-curve partitions are disjoint filters mapped back by their own index; the pairwise difference search compares every unordered pair whatever the order (rows shared with C10/C02).",
             "Not decided: permutation-equivariance of LLL-based guesses (the set -> list order of signatures feeds the lattice) - a runtime property.",
             "DESIGN.md section 3 C17"),
     "C05": ("other", "constant folding and symbolic comparison of enumerations, cut-offs and denominator formulas (necessary conditions only)",
             "Decides that the enumerations and cut-offs the detection region depends on are at least what the property states: default pattern sizes, cut-off bit_length // K with K <= 16 "
             "(oversize sizes skipped with continue, never break), permuted-pattern word/pattern ranges and cut-off K' <= 10, the denominator formulas 2^w - 1 and "
             "(2^p - 1)(2^(pw) + 1)/(2^w + 1) as symbolic identities, Pollard defaults (2^20-smooth, 2^64-powersmooth for 150 primes), gate and both-smooth verdict, "
-            "Hamming-weight thresholds and defaults. Premature exits of the candidate loops are under C04's R-C04-EXHAUST.",
+            "Hamming-weight thresholds and defaults; no candidate loop of the five patterned/sparse search functions gives up early outside four documented cut-offs (R-C05-EXHAUST); "
+            "CheckFraction / CheckContinuedFraction / CheckLowHammingWeight build the documented lattice, candidate and quadratic constructions (R-C05-CONSTRUCT).",
             "NOT decided: that the lattice reduction / best-first search then finds the factorisation inside the stated region (runtime behaviour of LLL and heuristics).",
             "DESIGN.md section 3 C05"),
     "C07": ("other", "one-sided threshold comparison (constant folding + dominance of the guarding comparison) and a frozen certificate/threshold classification of all registered checks",
             "The false-positive rate itself is a statement about a distribution and is not decidable statically. Decided: every default the 2^-37 design value rests on is at least as "
             "strict as documented (continued-fraction bound >= 2^48 and actually used, GCDN1 bound >= 2^128, Pollard gate >= 2^60 dominating every positive return, Hamming-weight "
             "threshold <= bitlen - 12 compared with <=, >= 48 / >= 39 ROCA primes with ROCA hits excluded from the variant); and each of the 29 registered checks is either "
-            "certificate-backed (every positive path records a verified factor / key: cannot accuse a healthy artifact, by C01/C02) or one of 12 frozen threshold-backed checks.",
-            "Neighbour-independence is C17. Sizes/Exponents cannot fire under the property's own hypothesis (>= 2048 bits, e = 65537).",
+            "certificate-backed (every positive path records a verified factor / key: cannot accuse a healthy artifact, by C01/C02) or one of 12 frozen threshold-backed checks. "
+            "R-C07-NEIGHBOUR decides the structural part of the last sentence: batch results are mapped back to the artifact they were computed for (BatchGCD element-wise, per-curve partitions "
+            "indexed by their own enumeration) and the entry recorded for an artifact is fresh or gets its result in the same iteration (no verdict leaks from a weak neighbour).",
+            "State independence across calls is C17. Sizes/Exponents cannot fire under the property's own hypothesis (>= 2048 bits, e = 65537).",
             "DESIGN.md section 3 C07"),
     "C08": ("other", "structural necessary conditions by symbolic path walk and constant folding (grouping, aligned windows, table/consumer agreement, strategy decision table)",
             "Lattice success is NOT decided. Decided: signatures are partitioned per curve and per issuer and the per-issuer (r, s, z) set is built from that issuer's indices with the "
             "partition's curve; window sizes include 24/48/120, a and b are sliced identically with stride = size, guesses are accumulated, the early break only fires when one window "
             "holds everything; every signature index of a verified issuer is assigned; each of the 18 LCG model entries has 1 <= min_signatures <= sliding_window_size <= sample_size, "
             "enough constants for the largest prefix the subset generator can request, w a power of two and a supported curve; DEFAULT = SINGLE|SLIDING|INCLUDE_KEY and the three regimes "
-            "yield a problem whenever len(a) >= min_signatures - 1; U2F basis, gate and sliding pair + single window.",
+            "yield a problem whenever len(a) >= min_signatures - 1; U2F basis, gate and sliding pair + single window; the entry recorded for a signature is created or given its "
+            "result in that signature's own iteration, so other issuers keep their own verdict (R-C08-OWN).",
             "Some regime checks of _HiddenNumberProblemSubsets compare normalised statements (refactoring-sensitive).",
             "DESIGN.md section 3 C08"),
     "C16": ("other", "typestate / who-may-write analysis over the AST + symbolic path walk of all 24 Check bodies",
